@@ -53,7 +53,7 @@ def rules(model: Model, tier: str) -> List[RuleResult]:
     isinstance_after_coercion(model, I, files={QUAD})
     negative_count_slicing(model, Z)
     _leibniz(fc, L)
-    _hy = ac.hygiene_rules(model, ac.get_fncls(model, '_Quadrature'), PROP, min_copies=0, min_opt=2)
+    _hy = ac.hygiene_rules(model, ac.get_fncls(model, '_Quadrature'), PROP, min_copies=0, min_opt=2, min_conv=1, min_idx=3)
     return [R1, R2, R3, R4, R5, K, R6, I, Z, L, *_hy]
 
 
